@@ -3,7 +3,8 @@
 Transcription of (working tree of /repo, after the `fix:` commits f0c4638, 2100e4a, e5c725f, 5478e2e, and
 with the two patches of /verif/notes/C08_defect_1 (a non-string key is a `LenaTypeError` in `str_to_dict` /
 `str_to_list`) and C08_defect_2 (`UpdateContext(value=True)`: nothing after the closing braces, blanks around
-the key dropped))
+the key dropped) and C08_defect_3 (`DeleteContext` rejects a list/tuple key with a member that is not a
+string); all three are in /repo since d8e17d6)
 * `lena/context/functions.py`: `contains` (14-63), `format_context` (111-212), `format_update_with`
   (215-239), `get_recursively` (245-338), `str_to_dict` (421-471), `str_to_list` (474-495),
   `to_string` (498-535), `update_recursively` (601-653);
